@@ -21,9 +21,11 @@ import (
 func init() { Register("e2e", e2eHarness) }
 
 type mwSpec struct {
-	name    string
-	rewrite bool
-	slow    bool // does "work" (a simulated millisecond) after the inner handler returned, before looking at the results
+	name     string
+	rewrite  bool
+	slow     bool // does "work" (a simulated millisecond) after the inner handler returned, before looking at the results
+	clearErr bool // turns a failure coming back from the inside into a fallback value (SetError(nil))
+	setErr   bool // turns a success coming back from the inside into an error (client side: a plain error; processor side: a declared exception)
 }
 
 func (env *e2eEnv) middleware(spec mwSpec) frugal.ServiceMiddleware {
@@ -53,8 +55,21 @@ func (env *e2eEnv) middleware(spec mwSpec) frugal.ServiceMiddleware {
 				}
 				p.mwSaw = append(p.mwSaw, spec.name+"="+seen)
 			}
-			if spec.rewrite && isPing && len(res) == 2 && res.Error() == nil {
-				res[0] = res[0].(string) + "|" + spec.name
+			if isPing && len(res) == 2 {
+				switch {
+				case spec.clearErr && res.Error() != nil:
+					res.SetError(nil)
+					res[0] = "fallback|" + spec.name
+				case spec.setErr && res.Error() == nil:
+					if strings.HasPrefix(spec.name, "srv") || strings.HasPrefix(spec.name, "added") {
+						res.SetError(&simbase.BaseErr{Why: "set-by|" + spec.name, Code: 77})
+					} else {
+						res.SetError(fmt.Errorf("set-by|%s", spec.name))
+					}
+					res[0] = ""
+				case spec.rewrite && res.Error() == nil:
+					res[0] = res[0].(string) + "|" + spec.name
+				}
 			}
 			if p != nil {
 				p.trace(spec.name, "exit "+spec.name)
@@ -110,6 +125,14 @@ func e2eHarness(rc *RunCtx) {
 		var mws []frugal.ServiceMiddleware
 		for i := 0; i < n; i++ {
 			sp := mwSpec{name: fmt.Sprintf("%s%d", where, i), rewrite: tp.Intn("cfg", 2) == 1, slow: tp.Intn("cfg", 3) == 0}
+			if rc.Prop == "C16" {
+				switch tp.Intn("cfg", 6) {
+				case 0:
+					sp.clearErr = true
+				case 1:
+					sp.setErr = true
+				}
+			}
 			specs = append(specs, sp)
 			mws = append(mws, env.middleware(sp))
 		}
@@ -169,6 +192,9 @@ func e2eHarness(rc *RunCtx) {
 			var mine []*callPlan
 			for j := 0; j < perCaller; j++ {
 				p := g.newPlan(len(plans))
+				if jsonFramed && p.timeout > 3*time.Second {
+					p.timeout = 3 * time.Second // D9: the call may legitimately fail; do not wait 40 simulated days for it
+				}
 				p.via2 = tp.Intn("call", 3) == 0
 				plans = append(plans, p)
 				env.plans[p.tag] = p
@@ -186,6 +212,9 @@ func e2eHarness(rc *RunCtx) {
 		}
 		// a plain call at the end: the same client and server still work
 		p := g.plainPlan(len(plans))
+		if jsonFramed && p.timeout > 3*time.Second {
+			p.timeout = 3 * time.Second
+		}
 		p.tag = "final"
 		plans = append(plans, p)
 		env.plans[p.tag] = p
@@ -254,7 +283,12 @@ func (g *e2eGen) headers(p *callPlan) {
 		p.reqHdr[""] = "empty-name"
 	}
 	p.cid = "cid-" + genString(tp, "hdr", 6)
-	p.timeout = []time.Duration{250 * time.Millisecond, time.Second, 3 * time.Second, 30 * time.Second, 1234 * time.Millisecond}[tp.Intn("hdr", 5)]
+	p.timeout = []time.Duration{250 * time.Millisecond, time.Second, 3 * time.Second, 30 * time.Second, 1234 * time.Millisecond,
+		61001 * time.Millisecond, 2147483648 * time.Millisecond, 40 * 24 * time.Hour}[tp.Intn("hdr", 8)]
+	if len(p.respHdr) > 0 && tp.Intn("hdr", 3) == 0 {
+		// the caller's context already carries a response header of that name (a reused context, an onward call)
+		p.staleRespKey = sortedKeys(p.respHdr)[0]
+	}
 	if len(p.reqHdr)+len(p.respHdr) > 0 {
 		g.rc.Nontrivial = true
 	}
@@ -532,6 +566,15 @@ func isTooLarge(err error, typ int) bool {
 	return ok && te.TypeId() == typ
 }
 
+func chainHasErrRewrite(order []mwSpec) bool {
+	for _, m := range order {
+		if m.clearErr || m.setErr {
+			return true
+		}
+	}
+	return false
+}
+
 func nest(order []mwSpec) []string {
 	var tr []string
 	for _, m := range order {
@@ -609,6 +652,64 @@ func e2eCheck(rc *RunCtx, env *e2eEnv, plans []*callPlan, cli, prov, srv, added 
 		case p.oneway:
 			if p.gotErr != nil {
 				rc.Violate("C03", "oneway-failed", key, fmt.Sprintf("%s: %v", where, p.gotErr))
+			}
+		case p.method == "basePing" && chainHasErrRewrite(expectedTraceOrder(cli, provOf(p), srv, added)):
+			// simulate the chain inside-out: value or error, as each middleware sees and changes it
+			ord := expectedTraceOrder(cli, provOf(p), srv, added)
+			nCliMW := len(cli) + len(provOf(p))
+			val, isErr, errDesc := "pong:"+wantArgs[0].(string), false, ""
+			if p.ret != nil && p.outcome == "ok" {
+				val = p.ret.(string)
+			}
+			switch p.outcome {
+			case "ex1":
+				isErr, errDesc = true, "declared"
+			case "undeclared", "appex":
+				isErr, errDesc = true, "application"
+			}
+			var wantSaw []string
+			for i := len(ord) - 1; i >= 0; i-- {
+				m := ord[i]
+				if isErr {
+					wantSaw = append(wantSaw, m.name+"=<error>")
+				} else {
+					wantSaw = append(wantSaw, m.name+"="+val)
+				}
+				switch {
+				case m.clearErr && isErr:
+					isErr, val = false, "fallback|"+m.name
+				case m.setErr && !isErr:
+					isErr, val = true, ""
+					if i >= nCliMW {
+						errDesc = "declared-set|" + m.name
+					} else {
+						errDesc = "plain-set|" + m.name
+					}
+				case m.rewrite && !isErr:
+					val += "|" + m.name
+				}
+			}
+			if !reflect.DeepEqual(wantSaw, p.mwSaw) {
+				rc.Violate("C16", "middleware-saw-wrong-results", key, fmt.Sprintf("%s: each middleware should have seen %v coming back, recorded %v", where, wantSaw, p.mwSaw))
+			}
+			switch {
+			case !isErr:
+				if p.gotErr != nil || p.gotRet != val {
+					rc.Violate("C16", "middleware-rewrite-not-observed", key, fmt.Sprintf("%s: caller should get %q, got %v / %v", where, val, p.gotRet, p.gotErr))
+				}
+			case strings.HasPrefix(errDesc, "declared-set|"):
+				be, ok := p.gotErr.(*simbase.BaseErr)
+				if !ok || be.Why != "set-by|"+strings.TrimPrefix(errDesc, "declared-set|") {
+					rc.Violate("C16", "middleware-rewrite-not-observed", key, fmt.Sprintf("%s: caller should get the exception set by %s, got %v / %v", where, errDesc, p.gotRet, p.gotErr))
+				}
+			case strings.HasPrefix(errDesc, "plain-set|"):
+				if p.gotErr == nil || p.gotErr.Error() != "set-by|"+strings.TrimPrefix(errDesc, "plain-set|") {
+					rc.Violate("C16", "middleware-rewrite-not-observed", key, fmt.Sprintf("%s: caller should get the error set by %s, got %v / %v", where, errDesc, p.gotRet, p.gotErr))
+				}
+			default:
+				if p.gotErr == nil {
+					rc.Violate("C16", "middleware-rewrite-not-observed", key, fmt.Sprintf("%s: the handler's failure should reach the caller, got %v", where, p.gotRet))
+				}
 			}
 		case p.outcome == "ok":
 			want := p.ret
